@@ -17,7 +17,7 @@ git -C $R apply $SRC/patch.diff || { rm -f $ddir/zz_$dname; echo "patch does not
 echo "== build"; (cd $R && go build ./...) && echo ok
 echo "== demo with the change"; d1=$(run_demo); echo "$d1" | tail -1
 rm -f $ddir/zz_$dname
-echo "== own test suite with the change"; $V/tools/baseline.sh | head -3
+[ -z "${SKIP_BASELINE:-}" ] && { echo "== own test suite with the change"; $V/tools/baseline.sh | head -3; }
 for c in $CHECKS; do
   echo "== check $c quick"; o=$($V/run $c quick 2>&1); rc=$?
   echo "$o" | grep "detail: key=" | cut -c1-260 | head -4; echo "exit=$rc"
